@@ -1686,7 +1686,13 @@ class BaseInterpreter(Generic[TContext, TEvent]):
             return
         if isinstance(assignment, dict):
             for key, value in assignment.items():
-                self.context[key] = value(args) if callable(value) else value
+                # 🧊 A literal belongs to the machine definition: hand the
+                #    context its own copy, or a later in-place mutation
+                #    (`ctx["items"].append(...)`) would rewrite the definition
+                #    and every later run of it.
+                self.context[key] = (
+                    value(args) if callable(value) else copy.deepcopy(value)
+                )
 
     def _collect_builtin_followups(
         self,
